@@ -12,17 +12,24 @@
        level  where the probe sits: record (field / label / attribute), resource, scope
        ids    does the event carry trace / span identifiers
        time   "none" or the unit its time stamp is expressed in
-       pos    delivered alone, or as the second event of a request whose first event carries an
-              attribute this one does not have
+       pos    the shape of the request that carries the event: "single" (alone) or between two mates -
+              other logical events of the same class with their own marker, body, ids, probe value, time
+              and an attribute key nobody else has - in the same innermost container ("same_scope":
+              same bulk body / HEC batch / Loki stream / OTLP scope / remote-write request), in sibling
+              scopes (Loki streams, OTLP scopes of one resource, each with an attribute key of its own:
+              "sibling_scopes") or in sibling OTLP resources ("sibling_resources").  EVERY event of the
+              request is judged against ITS logical event
    Deliver(c, arrival) stores the event; the law:
-       Stored keeps the probe (same value, same kind), the ids, the body, nothing of its sibling, and
+       Stored keeps the probe (same value, same kind), the ids, the body, its own / its scope's / its
+       resource's attributes and nothing of any other event, scope or resource of the request
+       (metrics: series identity = exactly own datapoint + scope + resource attributes), and
        time(Stored) = IF c.time = "none" THEN arrival ELSE ToMillis(c.time)
    ToMillis is over abstract instants: every unit expresses the same instant EventMs (the harness
    writes EventMs in that unit); metrics stores keep seconds (Resolution). *)
 EXTENDS Integers, FiniteSets, TLC
 
 CONSTANTS LogProtocols, MetricProtocols,
-          Kinds, MetricKinds, Levels, TimeUnits,
+          Kinds, MetricKinds, Levels, TimeUnits, Shapes,
           Accepts(_, _, _),      \* (protocol, feature class, feature) -> BOOLEAN: expressible in that protocol
           EventMs, ArrivalMs     \* two distinct abstract instants (ms)
 
@@ -38,11 +45,12 @@ Expressible(c) ==
   /\ Accepts(c.proto, "kind", c.kind)
   /\ Accepts(c.proto, "level", c.level)
   /\ Accepts(c.proto, "time", c.time)
+  /\ Accepts(c.proto, "shape", c.pos)
   /\ (c.ids => Accepts(c.proto, "ids", "ids"))
   /\ (c.proto \in MetricProtocols => c.kind \in MetricKinds)
 
 Cases == {c \in {Case(p, k, l, i, t, s) : p \in Protocols, k \in Kinds \cup MetricKinds, l \in Levels, i \in BOOLEAN,
-                                          t \in TimeUnits \cup {"none"}, s \in {"single", "second"}} : Expressible(c)}
+                                          t \in TimeUnits \cup {"none"}, s \in Shapes} : Expressible(c)}
 
 Resolution(p) == IF p \in MetricProtocols THEN 1000 ELSE 1
 ToMillis(p, t) == (EventMs \div Resolution(p)) * Resolution(p)     \* the same instant whatever the unit
